@@ -1031,6 +1031,20 @@ type ipLeaf struct {
 type ipTracer struct {
 	reach map[*ssa.Function]bool
 	depth int
+	// descend, when set, lets the trace continue from the result of a call into the returned
+	// values of the (static, repository) callee accepted by it.
+	descend func(*ssa.Function) bool
+}
+
+// calleeResults returns the values callee returns as result #idx (one per return statement).
+func calleeResults(callee *ssa.Function, idx int) []ssa.Value {
+	var out []ssa.Value
+	for _, b := range callee.Blocks {
+		if ret := returnOf(b); ret != nil && idx < len(ret.Results) {
+			out = append(out, ret.Results[idx])
+		}
+	}
+	return out
 }
 
 func closureBinding(fv *ssa.FreeVar) ssa.Value {
@@ -1135,6 +1149,21 @@ func (t *ipTracer) trace(v ssa.Value, fn *ssa.Function) []ipLeaf {
 						rec(rg.X, fn, elem+1, d+1)
 						continue
 					}
+				case *ssa.Call:
+					if cal := staticCallee(&tu.Call); cal != nil && t.descend != nil && len(cal.Blocks) > 0 && t.descend(cal) {
+						for _, rv := range calleeResults(cal, x.Index) {
+							rec(rv, cal, elem, d+1)
+						}
+						continue
+					}
+				}
+				out = append(out, ipLeaf{o, fn, elem})
+			case *ssa.Call:
+				if cal := staticCallee(&x.Call); cal != nil && t.descend != nil && len(cal.Blocks) > 0 && t.descend(cal) && builtinCall(x, "append") == nil {
+					for _, rv := range calleeResults(cal, 0) {
+						rec(rv, cal, elem, d+1)
+					}
+					continue
 				}
 				out = append(out, ipLeaf{o, fn, elem})
 			default:
@@ -1189,4 +1218,113 @@ func relaxFloors(r *Run, rules ...string) {
 			delete(r.floors, rule)
 		}
 	}
+}
+
+// truePaths enumerates the entry->return paths of a boolean function on which it can return true:
+// paths returning the constant false are dropped; when the returned value is not a constant on a
+// path (e.g. `return a && b`), the facts of that value being true are added to the path (paths
+// contradicting them are dropped). ok=false when the cap is exceeded.
+func truePaths(fn *ssa.Function, resultIdx int, cap int) ([]*Path, bool) {
+	paths, k, ok := funcPaths(fn, cap)
+	var out []*Path
+	for _, p := range paths {
+		ret := returnOf(p.Blocks[len(p.Blocks)-1])
+		if ret == nil || resultIdx >= len(ret.Results) {
+			continue
+		}
+		res := p.Resolve(ret.Results[resultIdx])
+		if b, isC := constBool(res); isC {
+			if b {
+				out = append(out, p)
+			}
+			continue
+		}
+		contra := false
+		extra := k.normCond(res, true)
+		for _, f := range extra {
+			for _, g := range p.Facts {
+				if g.Key == f.Key && g.Pol != f.Pol {
+					contra = true
+				}
+			}
+		}
+		if contra {
+			continue
+		}
+		for _, f := range extra {
+			p.Facts[fkey(f)] = f
+		}
+		out = append(out, p)
+	}
+	return out, ok
+}
+
+// ipWalk explores the interprocedural control flow forward from just after each start instruction,
+// context-insensitively: a call to a repository function accepted by descend continues at the
+// callee's entry, a return of a function other than entry continues after every static call site of
+// that function in reach (go and defer statements included). It returns the first instruction
+// accepted by target (typically: a return of entry) that can be reached without executing an
+// instruction accepted by avoid, or nil.
+func ipWalk(starts []ssa.Instruction, entry *ssa.Function, reach map[*ssa.Function]bool, descend func(*ssa.Function) bool, target, avoid func(ssa.Instruction) bool) ssa.Instruction {
+	seenBlock := map[*ssa.BasicBlock]bool{}
+	seenRet := map[*ssa.Function]bool{}
+	type pos struct {
+		b *ssa.BasicBlock
+		i int
+	}
+	var work []pos
+	for _, s := range starts {
+		work = append(work, pos{s.Block(), instrIndex(s) + 1})
+	}
+	for len(work) > 0 {
+		w := work[len(work)-1]
+		work = work[:len(work)-1]
+		stopped := false
+		for i := w.i; i < len(w.b.Instrs); i++ {
+			in := w.b.Instrs[i]
+			if avoid != nil && avoid(in) {
+				stopped = true
+				break
+			}
+			if target(in) {
+				return in
+			}
+			if ret, isRet := in.(*ssa.Return); isRet {
+				f := ret.Parent()
+				if f != entry && !seenRet[f] {
+					seenRet[f] = true
+					for _, cs := range callSitesOf(f, reach) {
+						work = append(work, pos{cs.Block(), instrIndex(cs) + 1})
+					}
+				}
+				stopped = true
+				break
+			}
+			if ci, isCall := in.(ssa.CallInstruction); isCall {
+				if cal := staticCallee(ci.Common()); cal != nil && len(cal.Blocks) > 0 && reach[cal] && descend(cal) {
+					if !seenBlock[cal.Blocks[0]] {
+						seenBlock[cal.Blocks[0]] = true
+						work = append(work, pos{cal.Blocks[0], 0})
+					}
+					if _, isGo := in.(*ssa.Go); !isGo {
+						if _, isDefer := in.(*ssa.Defer); !isDefer {
+							// a plain call resumes here only through the callee's returns
+							stopped = true
+							break
+						}
+					}
+				}
+			}
+		}
+		if stopped {
+			continue
+		}
+		for _, s := range w.b.Succs {
+			if !seenBlock[s] {
+				seenBlock[s] = true
+				work = append(work, pos{s, 0})
+			}
+		}
+	}
+	return nil
 }
